@@ -11,6 +11,11 @@ type PropSpec struct {
 }
 
 var propSpecs = map[string]*PropSpec{
+	"C20": {
+		Patterns:    []string{"./..."},
+		Level:       "proof",
+		Explanation: "router.ServeHTTP reaches the handler dispatch only when the route's authentication requirement and every required permission have been checked for the authenticated identity",
+	},
 	"C22": {
 		Patterns:    []string{"./..."},
 		Level:       "proof",
